@@ -29,6 +29,9 @@ def main(tier):
     F3 = P.func("WorldBuilder::World::properties", ptypes=["array<double, 3>"])
     layout.xdep(P, rep, [(F3, F3.params[2])])
     roots = pure.query_roots(P)
+    # the answer does not depend on what was queried before (no cache that outlives a query: a necessary condition for a
+    # statement about 'all worlds and all points', which includes a second world in the same process)
+    pure.run(P, rep, pure.query_roots(P))
     rep.explanation = ("Algebraic form of every initial block of the result, provenance of the global constants (each from the "
                        "entry of its own name, written nowhere else), all feature writes control-dependent on the feature's extent "
                        "test, forced surface temperature emitted under exactly its condition, independent of batching, and "
